@@ -155,6 +155,51 @@ func init() {
 		}
 		return "SAME " + first
 	})
+	// acc <encoder args...> : accessors only (kind, dims, bounds, content, checksum), no pixels
+	register("acc", func(a []string) string {
+		bc, err := encodeAny(a, nil)
+		d := describe(bc, err)
+		if i := strings.LastIndex(d, " "); strings.HasPrefix(d, "OK") && i > 0 {
+			return d[:i]
+		}
+		return d
+	})
+	// accf <scheme> <encoder args...> : the rendering contract of the WithColor variant, judged in Go:
+	//   px   every pixel is exactly the scheme's foreground or background
+	//   model ColorModel() is the scheme's model;  scheme ColorScheme() is the scheme that was passed
+	//   same the module pattern equals that of the plain Encode call;  plain16 plain Encode reports ColorScheme16
+	//   acc  kind/dims/bounds/content/checksum equal those of the plain call
+	register("accf", func(a []string) string {
+		sch, ok := testSchemes[a[0]]
+		if !ok {
+			panic("unknown scheme")
+		}
+		pbc, perr := encodeAny(a[1:], nil)
+		cbc, cerr := encodeAny(a[1:], &sch)
+		pd, cd := describe(pbc, perr), describe(cbc, cerr)
+		if !strings.HasPrefix(pd, "OK") || !strings.HasPrefix(cd, "OK") {
+			if pd == cd {
+				return pd
+			}
+			return "PLAIN=" + pd + " COLOR=" + cd
+		}
+		b2 := func(b bool) string {
+			if b {
+				return "1"
+			}
+			return "0"
+		}
+		pi, ci := strings.LastIndex(pd, " "), strings.LastIndex(cd, " ")
+		cc, okc := cbc.(barcode.BarcodeColor)
+		pc, okp := pbc.(barcode.BarcodeColor)
+		return "OK px=" + b2(!strings.Contains(cd[ci:], "?") && !strings.Contains(pd[pi:], "?")) +
+			" model=" + b2(cbc.ColorModel() == sch.Model) +
+			" scheme=" + b2(okc && cc.ColorScheme() == sch) +
+			" same=" + b2(pd[pi:] == cd[ci:]) +
+			" plain16=" + b2(okp && pc.ColorScheme() == barcode.ColorScheme16 && pbc.ColorModel() == barcode.ColorScheme16.Model) +
+			" acc=" + b2(pd[:pi] == cd[:ci]) +
+			" min0=" + b2(cbc.Bounds().Min.X == 0 && cbc.Bounds().Min.Y == 0)
+	})
 	// enc <encoder args...> : short description (accessors + md5 of the module pattern)
 	register("enc", func(a []string) string {
 		bc, err := encodeAny(a, nil)
